@@ -609,8 +609,20 @@ func RandomConfig(p *Program, seed uint64) Config {
 		c.NameOverrides[pk], c.NameOverrides[tk] = "name_by_path", "name_by_type"
 	}
 	c.SchemaTypes = map[string]SchemaType{}
-	for _, k := range pickKeys(2) {
-		c.SchemaTypes[k] = SchemaType{Type: "SimStrType", ValueType: "SimStrValue", CastToType: "string", CastFromType: "string"}
+	for i, k := range pickKeys(2 + r.n(3)) {
+		st := SchemaType{Type: "SimStrType", ValueType: "SimStrValue", CastToType: "string", CastFromType: "string"}
+		// entries of one type with different constructors, or none; sometimes the type of time_type itself
+		switch r.n(4) {
+		case 0:
+			st.TypeConstructor = "UseSimStr" + letters(i) + "()"
+		case 1:
+			st = *SimTimeType
+			st.TypeConstructor = "UseSimTime" + letters(i) + "()"
+		case 2:
+			st = *SimDurationType
+			st.TypeConstructor = "example.com/x/wrappers.UseDuration" + letters(i) + "()"
+		}
+		c.SchemaTypes[k] = st
 	}
 	c.CustomTypes, c.Suffixes = map[string]string{}, map[string]string{}
 	for i, k := range pickKeys(2 + r.n(2)) {
